@@ -1,8 +1,8 @@
 #!/bin/bash
 # Developer command: confirm that a sub-agent's behaviour-preserving refactor applies and keeps the whole suite green in a
 # scratch worktree of /repo, then store it under /verif/seeded_benign/. (Equivalence itself is reviewed by reading the diff.)
-# usage: verify_benign.sh <Cxx> <k> [features] [root]
-ID="$1"; K="$2"; FEAT="${3:-}"; ROOT="${4:-/tmp/seed3}"
+# usage: verify_benign.sh <Cxx> <k> [features] [root] [outk]
+ID="$1"; K="$2"; FEAT="${3:-}"; ROOT="${4:-/tmp/seed3}"; OUTK="${5:-$K}"
 SRC=$ROOT/$ID
 WT=/tmp/vb_${ID}_$K
 TGT=/tmp/vb_tgt_${ID}_$K
@@ -14,11 +14,11 @@ export CARGO_TARGET_DIR="$TGT" CARGO_NET_OFFLINE=true
 git apply "$SRC/benign$K.patch" || { echo "$ID-b$K: patch does not apply"; cd /; git -C /repo worktree remove --force "$WT"; rm -rf "$TGT"; exit 2; }
 if cargo test --offline $FARGS >/tmp/vb_${ID}_$K.suite.log 2>&1; then suite=pass; else suite=FAIL; fi
 npass=$(grep -E "^test result: ok" /tmp/vb_${ID}_$K.suite.log | sed -E 's/.*ok\. ([0-9]+) passed.*/\1/' | paste -sd+ | bc)
-echo "$ID-b$K: suite-with-change=$suite($npass tests)"
+echo "$ID-b$OUTK: suite-with-change=$suite($npass tests)"
 if [ "$suite" = pass ]; then
-  D=/verif/seeded_benign/$ID-b$K; mkdir -p "$D"
+  D=/verif/seeded_benign/$ID-b$OUTK; mkdir -p "$D"
   cp "$SRC/benign$K.patch" "$D/patch.diff"
-  python3 - "$ID" "$K" "$npass" "$SRC" <<'PY'
+  python3 - "$ID" "$OUTK" "$npass" "$SRC" <<'PY'
 import sys,json
 ID,K,npass,src=sys.argv[1:5]
 notes=open(src+'/NOTES.md').read()
